@@ -148,10 +148,16 @@ Section ShapeStep.
         destruct m as [|[k x] [|? ?]]; try discriminate; eapply G; eauto; fail).
       + eapply G; eauto.
       + destruct d; try discriminate.
-        destruct (find_idx (fun m => is_prefix (m_disc (fst m)) s) ms) as [[i m]|] eqn:E; [|discriminate].
+        destruct (sp_parse delim ms s) as [[[i m] rest]|] eqn:E; [|discriminate].
         destruct (rc (snd m) _) as [w|] eqn:Ew; [|discriminate]. inversion H; subst.
-        pose proof (member_wf ms _ i m Hch E) as Hc. apply find_idx_some in E as [En _].
-        cbn [shape_step]. rewrite En. eapply Hrec; eauto.
+        assert (Hin : nth_error ms i = Some m /\ wf (snd m) = true).
+        { unfold sp_parse in E. destruct delim.
+          - destruct (find_idx _ ms) as [[i' m']|] eqn:E2; [|discriminate]. inversion E; subst.
+            split; [apply find_idx_some in E2 as [En _]; exact En|eapply member_wf; eauto].
+          - destruct (split_first _ _ _) as [[p0 r0]|]; [|discriminate].
+            destruct (find_idx _ ms) as [[i' m']|] eqn:E2; [|discriminate]. inversion E; subst.
+            split; [apply find_idx_some in E2 as [En _]; exact En|eapply member_wf; eauto]. }
+        destruct Hin as [En Hc]. cbn [shape_step]. rewrite En. eapply Hrec; eauto.
     - (* enum *)
       destruct lvl; destruct d; try discriminate.
       + destruct (existsb _ es) eqn:E; [|discriminate]. inversion H; subst. exact E.
